@@ -97,7 +97,7 @@ pub fn features() -> String {
 }
 
 pub fn config_json() -> Value {
-    json!({"flavour": flavour(), "features": features(),
+    json!({"flavour": flavour(), "features": features(), "debug_assertions": cfg!(debug_assertions),
            "levels": levels().iter().map(|l| l.0.clone()).collect::<Vec<_>>()})
 }
 
